@@ -23,7 +23,7 @@ from .copsuite import Frame, T, TH, hy, pool_map, real_model, GRID_THETAS
 
 
 def patches(brentq=None, random=None):
-    sh = NPShim(havoc_empty=False, force_obj=True, random=random)
+    sh = NPShim(havoc_empty=True, force_obj=True, random=random)
     specs = [(B, dict(np=sh, brentq=brentq or stubs.BrentqStub())), (MC, dict(np=sh)), (MF, dict(np=sh)),
              (MG, dict(np=sh)), (MI, dict(np=sh))]
     return patched_many(*specs)
@@ -49,11 +49,19 @@ def closed_form(fam):
     y, v, y2 = z3.Real('y'), z3.Real('v'), z3.Real('y2')
     dom = [y > 0, y < 1, v > 0, v < 1, y2 > 0, y2 < 1]
     paths, ex, _ = ppf_paths(fam, [SymReal(y)], [SymReal(v)], dom)
-    if len(paths) != 1 or paths[0].status != 'ok':
+    if not paths or any(p.status != 'ok' for p in paths):
         return [('trace ' + str([(p.status, repr(p.exc)) for p in paths])[:200], 'error', None, 0.0)]
-    u = tz(paths[0].value['r'][0])
+
+    def merged(ps):
+        t = None
+        for p in reversed(ps):
+            n0 = p.ctx.notes.get('n_assume', 0)
+            c = z3.And(*p.ctx.pc[n0:]) if len(p.ctx.pc) > n0 else z3.BoolVal(True)
+            t = tz(p.value['r'][0]) if t is None else z3.If(c, tz(p.value['r'][0]), t)
+        return t
+    u = merged(paths)
     paths2, _, _ = ppf_paths(fam, [SymReal(y2)], [SymReal(v)], dom)
-    u2 = tz(paths2[0].value['r'][0])
+    u2 = merged(paths2)
     hyps = dom + FAMILIES[fam][1](TH.t)
     # range first (it is a hypothesis of the trace of h at the symbolic point u)
     r = prove(hyps, z3.And(u > 0, u <= 1), timeout_ms=60000)
@@ -197,17 +205,42 @@ def concrete_ppf_violation(fam, theta, y, v):
 
 
 def replay(d):
-    bad, detail = concrete_ppf_violation(d['fam'], d['theta'], d['y'], d['v'])
+    if d.get('vector'):
+        bad, detail = concrete_vector_violation(d['fam'], d['theta'], d['y'], d['v'])
+    else:
+        bad, detail = concrete_ppf_violation(d['fam'], d['theta'], d['y'], d['v'])
     print(detail)
     return bad
 
 
+SMALL = {'clayton': [1e-3, 5e-3, 0.05], 'gumbel': [1.001, 1.02], 'frank+': [1e-3, 0.02], 'frank-': [-1e-3, -0.02], 'gumbel1': []}
+VECTORS = [([5e-4, .3, .7], [.2, .5, .8]), ([.3, 1 - 5e-4, .7], [.5, .2, .8]), ([.3, .7], [.5, .8]), ([.7, 2e-4], [.8, .05]),
+           ([1e-4, 1 - 1e-4, .5, .25], [.9, .1, .5, .35])]
+
+
+def concrete_vector_violation(fam, theta, ys, vs):
+    """real code on a vector: every lane i must satisfy h(u_i, v_i) = y_i (element-wise clause)"""
+    c = real_model(fam, theta)
+    try:
+        with np.errstate(all='ignore'):
+            u = np.asarray(c.percent_point(np.array(ys), np.array(vs)), dtype=float)
+            hv = np.asarray(c.partial_derivative(np.column_stack((u, np.array(vs)))), dtype=float)
+    except Exception as e:
+        return True, f'percent_point raises {type(e).__name__}: {e}'
+    if u.shape != (len(ys),) or np.any(u < 0) or np.any(u > 1) or not np.allclose(hv, ys, atol=1e-5):
+        return True, f'y={ys} v={vs}: u={u} h(u,v)={hv}'
+    return False, ''
+
+
 def find_replay(fam, model=None):
     cands = []
+    thetas = []
     if model and 'theta' in model:
+        thetas.append(model['theta'])
         cands.append((model['theta'], model.get('y', model.get('y0', 0.5)), model.get('v', model.get('v0', 0.5))))
-    for th in GRID_THETAS[fam]:
-        for (y, v) in [(0.3, 0.6), (0.9, 0.2), (0.05, 0.5), (0.5, 0.97)]:
+    thetas += GRID_THETAS[fam] + SMALL.get(fam, [])
+    for th in thetas:
+        for (y, v) in [(0.3, 0.6), (0.9, 0.2), (0.05, 0.5), (0.5, 0.97), (0.5, 0.02), (1e-4, 0.3), (1 - 1e-4, 0.6)]:
             cands.append((th, y, v))
     for (th, y, v) in cands:
         if not (0 < y < 1 and 0 < v < 1):
@@ -215,6 +248,11 @@ def find_replay(fam, model=None):
         bad, detail = concrete_ppf_violation(fam, th, y, v)
         if bad:
             return {'fam': fam, 'theta': th, 'y': y, 'v': v, 'detail': detail}
+    for th in thetas:
+        for ys, vs in VECTORS:
+            bad, detail = concrete_vector_violation(fam, th, ys, vs)
+            if bad:
+                return {'fam': fam, 'theta': th, 'y': ys, 'v': vs, 'detail': detail, 'vector': True}
     return None
 
 
@@ -250,7 +288,7 @@ def run(tier, seed):
     n = 0
     for fam in ('clayton', 'frank+', 'frank-', 'gumbel', 'gumbel1'):
         rep = find_replay(fam, None)
-        n += len(GRID_THETAS[fam]) * 4
+        n += (len(GRID_THETAS[fam]) + len(SMALL.get(fam, []))) * (7 + len(VECTORS))
         if rep is not None:
             ck.violation(f'{fam}:conformance', f'{fam}: real percent_point fails the definition: {rep["detail"]}', rep)
     ck.traces_validated = n
